@@ -347,7 +347,9 @@ fn verify(c: &mut Ctx, fam: &str, idx: u64, tname: &str, octets: &[u8], items: &
     obs.pointers += tr.pointers.len() as u64;
     // (i) the library's own reader
     let res = crate::ctx::catch(|| -> Result<Vec<Item>, String> {
-        let msg = Message::from_octets(octets).map_err(|e| e.to_string())?;
+        // (read from an allocation of exactly the message's size)
+        let exact = crate::ctx::exact(octets.as_ref());
+        let msg = Message::from_octets(&exact[..]).map_err(|e| e.to_string())?;
         let mut out = Vec::new();
         for q in msg.question() {
             let q = q.map_err(|e| format!("question: {}", e))?;
